@@ -101,6 +101,13 @@ func InvokeThriftgo(SDKPlugins []plugin.SDKPlugin, args ...string) (err error) {
 		return fmt.Errorf("No output language(s) specified")
 	}
 
+	// every requested language needs a generator before anything is written
+	for _, out := range langs {
+		if g.GetBackend(out.Language) == nil {
+			return fmt.Errorf("No generator for language '%s'.", out.Language)
+		}
+	}
+
 	for _, out := range langs {
 		out.UsedPlugins = plugins
 		out.SDKPlugins = SDKPlugins
